@@ -69,130 +69,204 @@ Cmp(op, a, b) == CASE op = "eq" -> a = b [] op = "ne" -> a # b [] op = "lt" -> a
 B(x) == IF x THEN 1 ELSE 0
 
 \* ---------------------------------- expressions ----------------------------------
-\* store: [vars |-> [name |-> value record or array record]]
-\* array value: [t |-> "ARRAY", lo |-> l, el |-> <<values>>]
-RECURSIVE Eval(_, _)
-Eval(e, st) ==
-  CASE e.k = "lit" -> Val(IF e.t = "ANYINT" THEN "DINT" ELSE e.t, e.v)
-    [] e.k = "var" -> st[e.n]
-    [] e.k = "idx" ->
-        LET i == Eval(e.i, st) arr == st[e.n] IN
-        IF ~IsOk(i) THEN i
-        ELSE IF i.v < arr.lo \/ i.v > arr.lo + Len(arr.el) - 1 THEN Fault("IndexOutOfBounds")
-        ELSE arr.el[i.v - arr.lo + 1]
-    [] e.k = "un" ->
-        LET x == Eval(e.e, st) IN
-        IF ~IsOk(x) THEN x
-        ELSE IF e.op = "neg" THEN (IF x.v = MinDINT THEN Fault("Overflow") ELSE Ranged(x.t, -x.v))
-        ELSE IF x.t = "BOOL" THEN Val("BOOL", 1 - x.v)
-        ELSE Val(x.t, Hi(x.t) - x.v)                                   \* NOT on a bit string
-    [] e.k = "bin" ->
-        LET l == Eval(e.l, st) IN
-        IF ~IsOk(l) THEN l
-        ELSE IF e.op = "and" /\ l.t = "BOOL" /\ l.v = 0 THEN Val("BOOL", 0)      \* short circuit
-        ELSE IF e.op = "or"  /\ l.t = "BOOL" /\ l.v = 1 THEN Val("BOOL", 1)
-        ELSE LET r == Eval(e.r, st) IN
-             IF ~IsOk(r) THEN r
-             ELSE IF e.op \in {"add", "sub", "mul", "div", "mod"} THEN Arith(e.op, Wider(l.t, r.t), l.v, r.v)
-             ELSE IF e.op \in {"and", "or", "xor"} THEN
-                    (IF l.t = "BOOL" THEN Val("BOOL", BitOp(e.op, l.v, r.v, 1))
-                     ELSE Val(Wider(l.t, r.t), BitOp(e.op, l.v, r.v, 16)))
-             ELSE Val("BOOL", B(Cmp(e.op, l.v, r.v)))
-
-\* ---------------------------------- statements ----------------------------------
-\* declared types: decl[name] = [t |-> type] or [t |-> "ARRAY", el |-> type, lo, hi]
+\* A store maps variable names to values:
+\*   scalar  [f |-> "ok", t, v]                      array  [t |-> "ARRAY", lo, el |-> <<scalars>>]
+\*   struct  [t |-> "STRUCT", fl |-> [field |-> scalar]]
+\*   FB instance [t |-> "FB", ty |-> fb type name, vars |-> [name |-> scalar]]
+\* Expressions may call FUNCTIONs, which write their VAR_IN_OUT actual back into the caller's store,
+\* so evaluation threads the store: the result of Eval is a value record extended with `st`.
+\* env = [decl |-> declared types of the current POU, funcs |-> FUNCTION definitions, fbs |-> FB definitions]
+\*   funcs[F] = [ret |-> type, ins |-> <<[n, t, hasdef, def]>>, inout |-> name or "" (type INT), locals |-> <<[n, t]>>, body]
+\*   fbs[B]   = [ins |-> <<[n, t]>>, outs |-> <<[n, t]>>, body]      (member types in decl of the FB: fbs[B].decl)
+V(x, st) == [f |-> x.f, t |-> x.t, v |-> x.v, st |-> st]
+Plain(r) == [f |-> r.f, t |-> r.t, v |-> r.v]
 Coerce(t, x) == Ranged(t, x.v)                 \* assignment conversion (checker admits widening only)
+ZeroOf(t) == Val(t, 0)
 
 MaxIter == 300
-RECURSIVE Exec(_, _, _, _), ExecSeq(_, _, _, _, _), ForLoop(_, _, _, _, _, _, _, _), WhileLoop(_, _, _, _, _), RepeatLoop(_, _, _, _, _)
-\* result: [st, flow]  flow \in {"next", "exit", "continue"} or a fault kind
+RECURSIVE Eval(_, _, _), EvalArgs(_, _, _, _, _), CallFunction(_, _, _, _)
+RECURSIVE Exec(_, _, _), ExecSeq(_, _, _, _), ForLoop(_, _, _, _, _, _, _), WhileLoop(_, _, _, _), RepeatLoop(_, _, _, _), CaseExec(_, _, _, _, _)
+\* statement result: [st, flow, alt]  flow \in {"next", "exit", "continue", "return"} or a fault kind
 R(st, flow) == [st |-> st, flow |-> flow, alt |-> ""]
 \* two sub-expressions of one statement fault and IEC does not order them: either kind is acceptable
 R2(st, f1, f2) == [st |-> st, flow |-> f1, alt |-> IF f1 = f2 THEN "" ELSE f2]
-IsFaultFlow(fl) == fl \notin {"next", "exit", "continue"}
+IsFaultFlow(fl) == fl \notin {"next", "exit", "continue", "return"}
 
-ExecSeq(ss, i, st, decl, co) ==
+Eval(e, st, env) ==
+  CASE e.k = "lit" -> V(Val(IF e.t = "ANYINT" THEN "DINT" ELSE e.t, e.v), st)
+    [] e.k = "var" -> V(st[e.n], st)
+    [] e.k = "field" -> V(st[e.n].fl[e.fd], st)
+    [] e.k = "fbout" -> V(st[e.n].vars[e.fd], st)
+    [] e.k = "idx" ->
+        LET i == Eval(e.i, st, env) IN
+        IF ~IsOk(i) THEN i
+        ELSE LET arr == i.st[e.n] IN
+             IF i.v < arr.lo \/ i.v > arr.lo + Len(arr.el) - 1 THEN V(Fault("IndexOutOfBounds"), i.st)
+             ELSE V(arr.el[i.v - arr.lo + 1], i.st)
+    [] e.k = "un" ->
+        LET x == Eval(e.e, st, env) IN
+        IF ~IsOk(x) THEN x
+        ELSE IF e.op = "neg" THEN V(IF x.v = MinDINT THEN Fault("Overflow") ELSE Ranged(x.t, -x.v), x.st)
+        ELSE IF x.t = "BOOL" THEN V(Val("BOOL", 1 - x.v), x.st)
+        ELSE V(Val(x.t, Hi(x.t) - x.v), x.st)                                   \* NOT on a bit string
+    [] e.k = "bin" ->
+        LET l == Eval(e.l, st, env) IN
+        IF ~IsOk(l) THEN l
+        ELSE IF e.op = "and" /\ l.t = "BOOL" /\ l.v = 0 THEN V(Val("BOOL", 0), l.st)      \* short circuit
+        ELSE IF e.op = "or"  /\ l.t = "BOOL" /\ l.v = 1 THEN V(Val("BOOL", 1), l.st)
+        ELSE LET r == Eval(e.r, l.st, env) IN
+             IF ~IsOk(r) THEN r
+             ELSE IF e.op \in {"add", "sub", "mul", "div", "mod"} THEN V(Arith(e.op, Wider(l.t, r.t), l.v, r.v), r.st)
+             ELSE IF e.op \in {"and", "or", "xor"} THEN
+                    (IF l.t = "BOOL" THEN V(Val("BOOL", BitOp(e.op, l.v, r.v, 1)), r.st)
+                     ELSE V(Val(Wider(l.t, r.t), BitOp(e.op, l.v, r.v, 16)), r.st))
+             ELSE V(Val("BOOL", B(Cmp(e.op, l.v, r.v))), r.st)
+    [] e.k = "call" -> CallFunction(e, st, env, env.funcs[e.fn])
+
+\* evaluate the named arguments left to right into the callee's fresh frame `loc`
+EvalArgs(args, i, st, env, loc) ==
+  IF i > Len(args) THEN [f |-> "ok", st |-> st, loc |-> loc]
+  ELSE LET x == Eval(args[i].e, st, env) IN
+       IF ~IsOk(x) THEN [f |-> x.f, st |-> x.st, loc |-> loc]
+       ELSE LET c == Coerce(loc[args[i].n].t, x) IN
+            IF ~IsOk(c) THEN [f |-> c.f, st |-> x.st, loc |-> loc]
+            ELSE EvalArgs(args, i + 1, x.st, env, [loc EXCEPT ![args[i].n] = c])
+
+\* FUNCTION call: inputs by value (declared default when the argument is omitted), VAR_IN_OUT
+\* bound to the caller's variable (its value on entry, written back on exit), locals and the
+\* result variable initialised, RETURN ends the body
+CallFunction(e, st, env, fd) ==
+  LET names == {fd.ins[k].n : k \in DOMAIN fd.ins} \cup {fd.locals[k].n : k \in DOMAIN fd.locals} \cup {e.fn}
+                 \cup (IF fd.inout = "" THEN {} ELSE {fd.inout})
+      tyOf(n) == IF n = e.fn THEN fd.ret
+                 ELSE IF n = fd.inout THEN "INT"
+                 ELSE IF \E k \in DOMAIN fd.ins : fd.ins[k].n = n
+                      THEN (CHOOSE p \in {fd.ins[k] : k \in DOMAIN fd.ins} : p.n = n).t
+                      ELSE (CHOOSE p \in {fd.locals[k] : k \in DOMAIN fd.locals} : p.n = n).t
+      defOf(n) == IF \E k \in DOMAIN fd.ins : fd.ins[k].n = n /\ fd.ins[k].hasdef
+                  THEN (CHOOSE p \in {fd.ins[k] : k \in DOMAIN fd.ins} : p.n = n).def ELSE 0
+      loc0 == [n \in names |-> IF n = fd.inout /\ e.io # "" THEN st[e.io] ELSE Val(tyOf(n), defOf(n))]
+      a == EvalArgs(e.args, 1, st, env, loc0)
+  IN IF a.f # "ok" THEN V(Fault(a.f), a.st)
+     ELSE LET fenv == [decl |-> [n \in names |-> [t |-> tyOf(n)]], funcs |-> env.funcs, fbs |-> env.fbs]
+              \* the in-out actual may have been changed by an argument expression evaluated before the call
+              loc1 == IF fd.inout # "" /\ e.io # "" THEN [a.loc EXCEPT ![fd.inout] = a.st[e.io]] ELSE a.loc
+              r == ExecSeq(fd.body, 1, loc1, fenv)
+          IN IF IsFaultFlow(r.flow) THEN V(Fault(r.flow), a.st)
+             ELSE LET st2 == IF fd.inout # "" /\ e.io # "" THEN [a.st EXCEPT ![e.io] = r.st[fd.inout]] ELSE a.st
+                  IN V(r.st[e.fn], st2)
+
+\* ---------------------------------- statements ----------------------------------
+\* declared types: decl[name] = [t |-> type] or [t |-> "ARRAY", el |-> type, lo, hi] or [t |-> "STRUCT"/"FB", ...]
+ExecSeq(ss, i, st, env) ==
   IF i > Len(ss) THEN R(st, "next")
-  ELSE LET r == Exec(ss[i], st, decl, co) IN
-       IF r.flow = "next" THEN ExecSeq(ss, i + 1, r.st, decl, co) ELSE r
+  ELSE LET r == Exec(ss[i], st, env) IN
+       IF r.flow = "next" THEN ExecSeq(ss, i + 1, r.st, env) ELSE r
 
 CaseMatch(br, v) == \E j \in DOMAIN br.labels : br.labels[j].lo <= v /\ v <= br.labels[j].hi
-RECURSIVE CaseExec(_, _, _, _, _, _)
-CaseExec(s, j, v, st, decl, co) ==
-  IF j > Len(s.br) THEN ExecSeq(s.e, 1, st, decl, co)
-  ELSE IF CaseMatch(s.br[j], v) THEN ExecSeq(s.br[j].body, 1, st, decl, co)
-  ELSE CaseExec(s, j + 1, v, st, decl, co)
+CaseExec(s, j, v, st, env) ==
+  IF j > Len(s.br) THEN ExecSeq(s.e, 1, st, env)
+  ELSE IF CaseMatch(s.br[j], v) THEN ExecSeq(s.br[j].body, 1, st, env)
+  ELSE CaseExec(s, j + 1, v, st, env)
 
-\* co = TRUE: reference (assignment converts to the declared type); co = FALSE: the recorded deviation
-\* (the assigned value is stored with the tag it was computed in; untyped literals are DINT)
-Store(t, x, co) == IF co THEN Coerce(t, x) ELSE x
-Exec(s, st, decl, co) ==
+RECURSIVE FbInputs(_, _, _, _, _)
+\* FB call: the given inputs are stored in the instance (omitted ones keep their last value),
+\* the body runs on the instance's own variables, then the bound outputs are copied out
+FbInputs(args, i, st, env, inst) ==
+  IF i > Len(args) THEN [f |-> "ok", st |-> st, inst |-> inst]
+  ELSE LET x == Eval(args[i].e, st, env) IN
+       IF ~IsOk(x) THEN [f |-> x.f, st |-> x.st, inst |-> inst]
+       ELSE LET c == Coerce(inst[args[i].n].t, x) IN
+            IF ~IsOk(c) THEN [f |-> c.f, st |-> x.st, inst |-> inst]
+            ELSE FbInputs(args, i + 1, x.st, env, [inst EXCEPT ![args[i].n] = c])
+RECURSIVE FbOutputs(_, _, _, _, _)
+FbOutputs(outs, i, st, env, inst) ==
+  IF i > Len(outs) THEN R(st, "next")
+  ELSE LET c == Coerce(env.decl[outs[i].to].t, inst[outs[i].n]) IN
+       IF ~IsOk(c) THEN R(st, c.f) ELSE FbOutputs(outs, i + 1, [st EXCEPT ![outs[i].to] = c], env, inst)
+
+Exec(s, st, env) ==
   CASE s.k = "assign" ->
-        LET x == Eval(s.e, st) IN
-        IF ~IsOk(x) THEN R(st, x.f)
-        ELSE LET c == Store(decl[s.n].t, x, co) IN
-             IF ~IsOk(c) THEN R(st, c.f) ELSE R([st EXCEPT ![s.n] = c], "next")
+        LET x == Eval(s.e, st, env) IN
+        IF ~IsOk(x) THEN R(x.st, x.f)
+        ELSE LET c == Coerce(env.decl[s.n].t, x) IN
+             IF ~IsOk(c) THEN R(x.st, c.f) ELSE R([x.st EXCEPT ![s.n] = c], "next")
+    [] s.k = "assignfield" ->
+        LET x == Eval(s.e, st, env) IN
+        IF ~IsOk(x) THEN R(x.st, x.f)
+        ELSE LET c == Coerce(st[s.n].fl[s.fd].t, x) IN
+             IF ~IsOk(c) THEN R(x.st, c.f) ELSE R([x.st EXCEPT ![s.n].fl[s.fd] = c], "next")
     [] s.k = "assignidx" ->
-        LET i == Eval(s.i, st) IN
-        IF ~IsOk(i) THEN (LET x0 == Eval(s.e, st) IN IF IsOk(x0) THEN R(st, i.f) ELSE R2(st, i.f, x0.f))
-        ELSE LET x == Eval(s.e, st) arr == st[s.n] IN
-             IF ~IsOk(x) THEN (IF i.v < arr.lo \/ i.v > arr.lo + Len(arr.el) - 1 THEN R2(st, x.f, "IndexOutOfBounds") ELSE R(st, x.f))
-             ELSE IF i.v < arr.lo \/ i.v > arr.lo + Len(arr.el) - 1 THEN R(st, "IndexOutOfBounds")
-             ELSE LET c == Store(decl[s.n].el, x, co) IN
-                  IF ~IsOk(c) THEN R(st, c.f)
-                  ELSE R([st EXCEPT ![s.n].el[i.v - arr.lo + 1] = c], "next")
+        LET i == Eval(s.i, st, env) IN
+        IF ~IsOk(i) THEN (LET x0 == Eval(s.e, st, env) IN IF IsOk(x0) THEN R(i.st, i.f) ELSE R2(i.st, i.f, x0.f))
+        ELSE LET x == Eval(s.e, i.st, env) arr == x.st[s.n] IN
+             IF ~IsOk(x) THEN (IF i.v < arr.lo \/ i.v > arr.lo + Len(arr.el) - 1 THEN R2(x.st, x.f, "IndexOutOfBounds") ELSE R(x.st, x.f))
+             ELSE IF i.v < arr.lo \/ i.v > arr.lo + Len(arr.el) - 1 THEN R(x.st, "IndexOutOfBounds")
+             ELSE LET c == Coerce(env.decl[s.n].el, x) IN
+                  IF ~IsOk(c) THEN R(x.st, c.f)
+                  ELSE R([x.st EXCEPT ![s.n].el[i.v - arr.lo + 1] = c], "next")
+    [] s.k = "fbcall" ->
+        LET a == FbInputs(s.args, 1, st, env, st[s.n].vars) IN
+        IF a.f # "ok" THEN R(a.st, a.f)
+        ELSE LET fb == env.fbs[st[s.n].ty]
+                 r == ExecSeq(fb.body, 1, a.inst, [decl |-> fb.decl, funcs |-> env.funcs, fbs |-> env.fbs])
+                 st2 == [a.st EXCEPT ![s.n].vars = r.st]
+             IN IF IsFaultFlow(r.flow) THEN R(st2, r.flow)
+                ELSE FbOutputs(s.outs, 1, st2, env, r.st)
     [] s.k = "if" ->
-        LET c == Eval(s.c, st) IN
-        IF ~IsOk(c) THEN R(st, c.f)
-        ELSE IF c.v = 1 THEN ExecSeq(s.t, 1, st, decl, co) ELSE ExecSeq(s.e, 1, st, decl, co)
+        LET c == Eval(s.c, st, env) IN
+        IF ~IsOk(c) THEN R(c.st, c.f)
+        ELSE IF c.v = 1 THEN ExecSeq(s.t, 1, c.st, env) ELSE ExecSeq(s.e, 1, c.st, env)
     [] s.k = "case" ->
-        LET v == Eval(s.s, st) IN
-        IF ~IsOk(v) THEN R(st, v.f) ELSE CaseExec(s, 1, v.v, st, decl, co)
+        LET v == Eval(s.s, st, env) IN
+        IF ~IsOk(v) THEN R(v.st, v.f) ELSE CaseExec(s, 1, v.v, v.st, env)
     [] s.k = "for" ->
-        LET a == Eval(s.from, st) IN IF ~IsOk(a) THEN R(st, a.f) ELSE
-        LET b == Eval(s.to, st)   IN IF ~IsOk(b) THEN R(st, b.f) ELSE
-        LET c == Eval(s.by, st)   IN IF ~IsOk(c) THEN R(st, c.f) ELSE
-        IF c.v = 0 THEN R(st, "ForStepZero")
-        ELSE LET ct == decl[s.n].t
+        LET a == Eval(s.from, st, env) IN IF ~IsOk(a) THEN R(a.st, a.f) ELSE
+        LET b == Eval(s.to, a.st, env) IN IF ~IsOk(b) THEN R(b.st, b.f) ELSE
+        LET c == Eval(s.by, b.st, env) IN IF ~IsOk(c) THEN R(c.st, c.f) ELSE
+        IF c.v = 0 THEN R(c.st, "ForStepZero")
+        ELSE LET ct == env.decl[s.n].t
                  c0 == Coerce(ct, a) IN
-             IF ~IsOk(c0) THEN R(st, c0.f)
-             ELSE ForLoop(s, a.v, b.v, c.v, [st EXCEPT ![s.n] = c0], decl, 0, co)
-    [] s.k = "while"  -> WhileLoop(s, st, decl, 0, co)
-    [] s.k = "repeat" -> RepeatLoop(s, st, decl, 0, co)
+             IF ~IsOk(c0) THEN R(c.st, c0.f)
+             ELSE ForLoop(s, a.v, b.v, c.v, [c.st EXCEPT ![s.n] = c0], env, 0)
+    [] s.k = "while"  -> WhileLoop(s, st, env, 0)
+    [] s.k = "repeat" -> RepeatLoop(s, st, env, 0)
     [] s.k = "exit"     -> R(st, "exit")
     [] s.k = "continue" -> R(st, "continue")
+    [] s.k = "return"   -> R(st, "return")
 
-\* FOR: test before each iteration; the control variable is updated after the body.
-\* A final increment that leaves the control variable's type is "ForPastEnd" (IEC leaves the
-\* post-loop value implementer-dependent: the trace spec accepts termination or Overflow).
-ForLoop(s, cur, to, by, st, decl, n, co) ==
+\* FOR: test before each iteration; the control variable is updated after the body (also after
+\* CONTINUE).  A final increment that leaves the control variable's type is "ForPastEnd" (IEC leaves
+\* the post-loop value implementer-dependent: the trace spec accepts termination or Overflow).
+ForLoop(s, cur, to, by, st, env, n) ==
   IF n > MaxIter THEN R(st, "Timeout")
   ELSE IF (by > 0 /\ cur > to) \/ (by < 0 /\ cur < to) THEN R(st, "next")
-  ELSE LET r == ExecSeq(s.body, 1, st, decl, co) ct == st[s.n].t IN
-       IF IsFaultFlow(r.flow) THEN r
+  ELSE LET r == ExecSeq(s.body, 1, st, env) ct == st[s.n].t IN
+       IF IsFaultFlow(r.flow) \/ r.flow = "return" THEN r
        ELSE IF r.flow = "exit" THEN R(r.st, "next")
        ELSE IF AddOv(cur, by) \/ ~InRange(ct, cur + by) THEN R(r.st, "ForPastEnd")
-       ELSE ForLoop(s, cur + by, to, by, [r.st EXCEPT ![s.n] = Val(ct, cur + by)], decl, n + 1, co)
+       ELSE ForLoop(s, cur + by, to, by, [r.st EXCEPT ![s.n] = Val(ct, cur + by)], env, n + 1)
 
-WhileLoop(s, st, decl, n, co) ==
+WhileLoop(s, st, env, n) ==
   IF n > MaxIter THEN R(st, "Timeout")
-  ELSE LET c == Eval(s.c, st) IN
-       IF ~IsOk(c) THEN R(st, c.f)
-       ELSE IF c.v = 0 THEN R(st, "next")
-       ELSE LET r == ExecSeq(s.body, 1, st, decl, co) IN
-            IF IsFaultFlow(r.flow) THEN r
+  ELSE LET c == Eval(s.c, st, env) IN
+       IF ~IsOk(c) THEN R(c.st, c.f)
+       ELSE IF c.v = 0 THEN R(c.st, "next")
+       ELSE LET r == ExecSeq(s.body, 1, c.st, env) IN
+            IF IsFaultFlow(r.flow) \/ r.flow = "return" THEN r
             ELSE IF r.flow = "exit" THEN R(r.st, "next")
-            ELSE WhileLoop(s, r.st, decl, n + 1, co)
+            ELSE WhileLoop(s, r.st, env, n + 1)
 
-RepeatLoop(s, st, decl, n, co) ==
+RepeatLoop(s, st, env, n) ==
   IF n > MaxIter THEN R(st, "Timeout")
-  ELSE LET r == ExecSeq(s.body, 1, st, decl, co) IN
-       IF IsFaultFlow(r.flow) THEN r
+  ELSE LET r == ExecSeq(s.body, 1, st, env) IN
+       IF IsFaultFlow(r.flow) \/ r.flow = "return" THEN r
        ELSE IF r.flow = "exit" THEN R(r.st, "next")
-       ELSE LET c == Eval(s.c, r.st) IN
-            IF ~IsOk(c) THEN R(r.st, c.f)
-            ELSE IF c.v = 1 THEN R(r.st, "next")
-            ELSE RepeatLoop(s, r.st, decl, n + 1, co)
+       ELSE LET c == Eval(s.c, r.st, env) IN
+            IF ~IsOk(c) THEN R(c.st, c.f)
+            ELSE IF c.v = 1 THEN R(c.st, "next")
+            ELSE RepeatLoop(s, c.st, env, n + 1)
 
-RunCycle(body, st, decl, co) == ExecSeq(body, 1, st, decl, co)
+\* one cycle of the program body; a RETURN at program level ends the cycle normally
+RunCycle(body, st, env) == LET r == ExecSeq(body, 1, st, env) IN IF r.flow = "return" THEN R(r.st, "next") ELSE r
 =================================================================================
